@@ -979,7 +979,21 @@ func suiteTeletextModel(R *runner, r *rng) {
 			R.add(o2)
 		}
 	}
-	// hostile payloads: arbitrary bytes, mutated valid payloads, splices
+	ttxHostile(R, r, H)
+}
+
+// hostile payloads: arbitrary bytes, mutated valid payloads, splices (model vs the library's page-buffer loop; also run
+// under C08, whose teletext totality theorem is about this model)
+func suiteTeletextHostile(R *runner, r *rng) {
+	R.rule("teletext feeder on hostile delivered lists (random bytes, random units with plausible framing/addresses, benign units, mutated/truncated valid payloads, odd page options): the Coq model ttx_feed vs VerifTeletextFeed, value-compared; a panic of the library is an oracle failure")
+	H := 1500
+	if R.tier == "thorough" {
+		H = 20000
+	}
+	ttxHostile(R, r, H)
+}
+
+func ttxHostile(R *runner, r *rng, H int) {
 	for c := 0; c < H; c++ {
 		var ds []tmDelivery
 		page := 0
